@@ -320,6 +320,9 @@ class MarshalSerializer(SerializerBase):
         return marshal.dumps((obj, method, vargs, kwargs))
 
     def dumps(self, data):
+        if type(data) is list:
+            # the result of a batch call is a list that can hold exception wrappers for failed calls
+            data = [self.convert_obj_into_marshallable(value) for value in data]
         return marshal.dumps(self.convert_obj_into_marshallable(data))
 
     def loadsCall(self, data):
